@@ -3,11 +3,13 @@
    (trie_trace.ndjson, written by the Go harness) are checked against Trie.tla.
    One line per event:
      {"e":"reset"}                                 a fresh trie (traces are concatenated)
-     {"e":"ins","w":[bytes],"mem":[[bytes],0|1]..,"q":[[prefix, n, [words..]]..]}
-   after the real Insert(w): membership answers for the listed words and PrefixAll
-   answers for the listed prefixes.  An event is accepted when the spec's Insert(w)
-   is enabled and the observations equal both what the implementation-shaped model
-   computes and what the abstract set semantics demands.                            *)
+     {"e":"ins","w":[bytes],"mem":[[bytes],0|1]..,"q":[[prefix, n, [words..], ok, line, pos]..]}
+   after the real Insert(w): membership answers for the listed words, PrefixAll
+   answers for the listed prefixes and what the TAB callback of repl/completion.go
+   returned for that prefix typed on an empty line (ok 0|1, the new line, the new
+   position).  An event is accepted when the spec's Insert(w) is enabled and the
+   observations equal both what the implementation-shaped model computes and what
+   the abstract set semantics demands.                                              *)
 EXTENDS Trie
 
 VARIABLE l
@@ -21,12 +23,19 @@ ObsOK(ev) ==
        /\ (ev.mem[i][2] = 1) <=> ImplContains(nodes', w)
        /\ (ev.mem[i][2] = 1) <=> (w \in set')
   /\ \A i \in 1..Len(ev.q) :
-       LET p == ev.q[i][1]
-           r == ImplPrefixAll(nodes', p)
-           m == Matches(set', p)
+       LET p  == ev.q[i][1]
+           r  == ImplPrefixAll(nodes', p)
+           m  == Matches(set', p)
+           sm == Sorted(m)
+           k  == LcpLen(m, Len(p))
        IN /\ ev.q[i][3] = r[2] /\ ev.q[i][2] = r[1]
-          /\ ev.q[i][3] = Sorted(m)
-          /\ (m # {} => ev.q[i][2] = LcpLen(m, Len(p)))
+          /\ ev.q[i][3] = sm
+          /\ (m # {} => ev.q[i][2] = k)
+          \* TAB extends what was typed to the common prefix of the defined words that start with it, and only then
+          /\ IF m = {} THEN ev.q[i][4] = 0
+             ELSE /\ ev.q[i][4] = 1
+                  /\ ev.q[i][5] = SubSeq(sm[1], 1, k)
+                  /\ ev.q[i][6] = k
 
 TraceIns ==
   /\ l <= Len(Trace) /\ Trace[l].e = "ins"
